@@ -5,6 +5,7 @@
   Together with `Cspuz.C11.C11_compose` this yields the property for this puzzle.
 -/
 import CspuzModel.Proofs.C11Yajilin
+import CspuzModel.Proofs.C11LoopEx
 namespace Cspuz.C11.Yajilin
 open Cspuz Cspuz.Spec Cspuz.Puzzles.Yajilin Cspuz.Spec.Yajilin
 
@@ -36,5 +37,33 @@ theorem exPb_wf : WellFormed exPb := by
   rcases hr with rfl | rfl | rfl <;> rfl
 
 example : ∃ P, program exPb = .ok P ∧ P.keys.length = 12 + 9 := ⟨_, Cspuz.Proofs.C11Yajilin.program_eq exPb exPb_wf, rfl⟩
+
+/-! ### non-vacuity of the rules: the empty 2 × 2 board is solved by the tour of its four cells with nothing shaded,
+and hence the posted program has a model -/
+
+def exPb2 : Problem := { height := 2, width := 2, problem := [[.empty, .empty], [.empty, .empty]] }
+
+theorem exPb2_wf : WellFormed exPb2 := by
+  refine ⟨by decide, by decide, rfl, ?_⟩
+  intro row hr
+  simp only [exPb2, List.mem_cons, List.not_mem_nil, or_false] at hr
+  rcases hr with rfl | rfl <;> rfl
+
+open Cspuz.Spec.Loop in
+theorem exPb2_rules : Rules exPb2 (segAnswer 1 1 (fun _ => true) ++ boolGrid 2 2 fun _ _ => false) := by
+  refine ⟨fun _ => true, fun _ _ => false, rfl, Cspuz.Proofs.C11LoopEx.unitLoop, ?_, ?_⟩
+  · intro y _ x _ h; cases h
+  · intro y hy x hx
+    have hy' : y = 0 ∨ y = 1 := by simp only [exPb2] at hy; omega
+    have hx' : x = 0 ∨ x = 1 := by simp only [exPb2] at hx; omega
+    rcases hy' with rfl | rfl <;> rcases hx' with rfl | rfl <;>
+      (show onLoop 1 1 (fun _ => true) _ = !false; decide)
+
+open Cspuz.Spec.Loop in
+example : ∃ P σ, program exPb2 = .ok P ∧ Sat P.decls P.cs σ ∧
+    P.keyVals σ = (segAnswer 1 1 (fun _ => true) ++ boolGrid 2 2 fun _ _ => false).map some := by
+  obtain ⟨P, hP⟩ := total exPb2 exPb2_wf
+  obtain ⟨σ, hσ, hk⟩ := ((program_iff_rules exPb2 exPb2_wf P hP).1 _).mpr exPb2_rules
+  exact ⟨P, σ, hP, hσ, hk⟩
 
 end Cspuz.C11.Yajilin
